@@ -652,11 +652,12 @@ func (e *Exec) callFunction(f *ssa.Function, args []Value, env []Value, caller *
 		e.noteIntrinsic(key)
 		return in(e, f, args)
 	}
-	if f.Blocks == nil {
-		// dependency packages are built lazily, on first entry
-		if pk := pkgOfFunc(f); pk != nil {
-			pk.Build()
-		}
+	// dependency packages are built lazily, on first entry. Build() is called unconditionally (it is a
+	// sync.Once): testing f.Blocks first would let a worker run a function of a package that another worker
+	// is still building, and reach a generic instance of that package whose body does not exist yet.
+	if pk := pkgOfFunc(f); pk != nil && !e.prog.builtPkg(pk) {
+		pk.Build()
+		e.prog.markBuilt(pk)
 	}
 	if f.Blocks == nil {
 		panic(abortRun{kind: "unsupported", msg: "external function without body or intrinsic: " + key})
